@@ -174,6 +174,7 @@ class Ctx:
         self.declared_bounds = []
         self.polarity = "assume"
         self.ret_locals = None
+        self.shared_skolems = {}
 
     # ---- parameter declaration
     def _next(self, name):
@@ -305,26 +306,39 @@ class Ctx:
     #                     instantiated at it
     #   assume polarity : forall -> registered as a closure and instantiated at the terms named with `at=` / c.instantiate
     #                     (forall-elimination); nothing un-instantiated reaches the solver
-    def forall(self, fn, name="k", at=()):
+    def forall(self, fn, name="k", at=(), shared=False, sort=None):
+        """shared=True: the clauses of one invariant / post-condition evaluation that quantify over `name` use ONE skolem
+        constant (proving P(sk) and then Q(sk) under P(sk), for an arbitrary sk, proves forall x. P(x) and Q(x)); this keeps
+        the number of instances small and lets later clauses use earlier ones.
+        sort: a label for the domain of the bound variable ("set index", "bucket", ...); universals are only instantiated
+        at terms of their own sort (terms/universals without a sort match everything)."""
         E = self.E
         if self.polarity == "goal":
+            if shared and name in self.shared_skolems:
+                return fn(self.shared_skolems[name])
             sk = z3.Int(E.fresh("sk!" + name))
-            self.instantiate(sk)
+            if shared:
+                self.shared_skolems[name] = sk
+            self.instantiate(sk, sort=sort)
             return fn(sk)
-        E.universals.append(fn)
-        for t in list(at) + list(E.inst_terms):
+        E.universals.append((sort, fn))
+        for t in list(at):
             E.assume(fn(t))
+        for (ts, t) in list(E.inst_terms):
+            if sort is None or ts is None or ts == sort:
+                E.assume(fn(t))
         return z3.BoolVal(True)
 
-    def instantiate(self, *terms):
+    def instantiate(self, *terms, sort=None):
         E = self.E
         for t in terms:
             t = z3.IntVal(t) if isinstance(t, int) else t
-            if any(t.eq(x) for x in E.inst_terms):
+            if any(t.eq(x) and xs == sort for xs, x in E.inst_terms):
                 continue
-            E.inst_terms.append(t)
-            for u in list(E.universals):
-                E.assume(u(t))
+            E.inst_terms.append((sort, t))
+            for (us, u) in list(E.universals):
+                if sort is None or us is None or us == sort:
+                    E.assume(u(t))
 
     def lemma(self, fact):
         """instance of a lemma that is proved separately (the property part emits its base/step obligations)"""
@@ -485,12 +499,27 @@ class LoopSpec:
     """Loop invariant: invariant(c, L, entry, cur) -> [(label, Bool)]; assigns(c, L) -> [Region].
     L gives the current values of the enclosing function's locals by name (z3 terms)."""
 
-    def __init__(self, invariant, assigns=None, variant=None, note=""):
+    def __init__(self, invariant, assigns=None, variant=None, note="", ptr_locals=None):
         self.invariant, self.assigns, self.variant, self.note = invariant, assigns, variant, note
+        # pointer-typed locals assigned in the loop: name -> fn(c, L, cur) giving the pointer as a function of the rest of
+        # the state (re-established by every iteration: obligation).  Pointer locals without an entry are havocked to
+        # `uninitialised` (any read before the body assigns them is a failed obligation).
+        self.ptr_locals = ptr_locals or {}
+
+    def _ptr_defs(self, E, fr):
+        c = E.ctx
+        out = {}
+        for name, fn in self.ptr_locals.items():
+            did = fr.names.get(name)
+            if did is None:
+                raise Unsupported("loop invariant defines pointer local %s which is not in scope" % name)
+            out[did] = (name, fn(c, Locals(E, fr), View(E, E.state.snapshot())))
+        return out
 
     def _inv(self, E, fr, entry, polarity):
         c = E.ctx
         c.polarity = polarity
+        c.shared_skolems = {}
         try:
             return list(self.invariant(c, Locals(E, fr), entry, View(E, E.state.snapshot())))
         finally:
@@ -504,6 +533,13 @@ class LoopSpec:
         E.extra.setdefault("loops_with_invariant", set()).add("%s#%d" % (fr.fname, ordn))
         for label, g in self._inv(E, fr, entry, "goal"):
             E.require("inv", "%s.inv_on_entry.%s" % (tag, label), g, s)
+        for did, (name, p) in self._ptr_defs(E, fr).items():
+            act = fr.locals.get(did)
+            if not isinstance(act, Ptr) or act.block is not p.block or act.shape() != p.shape():
+                E.require("inv", "%s.inv_on_entry.pointer_%s" % (tag, name), False, s)
+            else:
+                eqs = [zt(x[1]) == zt(y[1]) for x, y in zip(act.steps, p.steps) if x[0] == "i"]
+                E.require("inv", "%s.inv_on_entry.pointer_%s" % (tag, name), z3.And(eqs) if eqs else True, s)
         # havoc
         for did in sorted(E.assigned_locals(s)):
             if did in fr.locals:
@@ -513,6 +549,9 @@ class LoopSpec:
                 d = E.tu.decl[did]
                 t = E.tt.parse(d["type"]["qualType"])
                 if not isinstance(t, TInt):
+                    if isinstance(t, TPtr):
+                        fr.locals[did] = UNINIT
+                        continue
                     raise Unsupported("loop %s assigns the non-integer local %s declared outside it" % (tag, d.get("name")))
                 fr.locals[did] = E.fresh_int("%s.%s" % (tag, d["name"]), t)
         allowed = set()
@@ -526,6 +565,8 @@ class LoopSpec:
             E.havoc_cell(blk, shape, lin, cnt)
         for label, g in self._inv(E, fr, entry, "assume"):
             E.assume(g)
+        for did, (name, p) in self._ptr_defs(E, fr).items():
+            fr.locals[did] = p
         v0 = self.variant(c, Locals(E, fr), View(E, E.state.snapshot())) if self.variant else None
         E.wguards.append((allowed, E.nblocks + 1, "%s of %s" % (tag, fr.fname)))
         try:
@@ -543,6 +584,13 @@ class LoopSpec:
             E.wguards.pop()
         for label, g in self._inv(E, fr, entry, "goal"):
             E.require("inv", "%s.inv_preserved.%s" % (tag, label), g, s)
+        for did, (name, p) in self._ptr_defs(E, fr).items():
+            act = fr.locals.get(did)
+            if not isinstance(act, Ptr) or act.block is not p.block or act.shape() != p.shape():
+                E.require("inv", "%s.inv_preserved.pointer_%s" % (tag, name), False, s)
+            else:
+                eqs = [zt(x[1]) == zt(y[1]) for x, y in zip(act.steps, p.steps) if x[0] == "i"]
+                E.require("inv", "%s.inv_preserved.pointer_%s" % (tag, name), z3.And(eqs) if eqs else True, s)
         if v0 is not None:
             v1 = self.variant(c, Locals(E, fr), View(E, E.state.snapshot()))
             E.require("inv", "%s.variant_decreases" % tag, z3.And(v0 >= 0, v1 < v0), s)
@@ -583,6 +631,8 @@ def make_engine(tu, contract, registry):
         E.contracts[cc.name] = as_callee(cc, tu)
     E.inline |= set(contract.inline)
     E.trusted_init |= set(contract.trusted_init)
+    if hasattr(contract, "callback"):
+        E.contracts["(*)"] = lambda E_, args, node: contract.callback(E_, args[0], args[1:], node)
     if contract.merge_ifs:
         E.merge_ifs.add(contract.name)
         E.merge_ifs |= set(contract.inline)
@@ -639,6 +689,7 @@ def verify(run, prop, tu, contract_cls, case_filter=None, tag_extra=None):
             rterm = ret.z() if isinstance(ret, V) else (ret.code.z() if isinstance(ret, FnPtr) else None)
             c.ret_locals = E.last_frame_locals
             c.polarity = "goal"
+            c.shared_skolems = {}
             posts = list(contract.ensures(c, old, new, rterm))
             c.polarity = "assume"
             exact = contract.returns(c, old)
@@ -677,6 +728,13 @@ def verify(run, prop, tu, contract_cls, case_filter=None, tag_extra=None):
         base_tag.update(tag_extra or {})
         run.add(Cover(prop, fname, "requires_satisfiable", [g for _, g in reqs], case=cs, where=where, tag=dict(base_tag)))
         seen = set()
+        agg = run.extra.setdefault("cvc_engine", {"loops_with_invariant": [], "side_conditions_trivially_true": 0, "merged_ifs": 0})
+        for p in paths:
+            for lp in sorted(p.extra.get("loops_with_invariant", ())):
+                if lp not in agg["loops_with_invariant"]:
+                    agg["loops_with_invariant"].append(lp)
+            agg["side_conditions_trivially_true"] += p.extra.get("trivial_side_conditions", 0)
+            agg["merged_ifs"] += p.extra.get("merged_ifs", 0)
         for n, p in enumerate(paths):
             total["paths"] += 1
             pid = "path%d" % n
@@ -751,6 +809,8 @@ def note_engine(run, E, tu):
     for n in sorted(E.used_inline):
         run.inlined.add("%s:%s" % (tu.relfile, n))
     for n in sorted(E.used_externals):
+        if n == "memcpy":
+            continue            # modelled (member-wise struct copy), see the CVC note above
         run.assume("external %s(): assumed to have no effect on program memory (arguments are still evaluated)" % n)
     for n in sorted(E.used_contracts):
         run.extra.setdefault("callee_contracts_used", [])
